@@ -46,7 +46,12 @@ RULE = ('joins: the C06 pair space (every pair of tables whose key vectors are A
         '(contents before, contents after) with each side ranging over every key vector of length 0..2 over '
         '{None,i1} (thorough +s1), x cache: pass, replace contents of either/both sides, pass, pass; cache=False: '
         'every pass is the relational result on the CURRENT contents; cache=True: probe side current, build side '
-        'current or the one cached at pass 1.  Non-trivial join case: both sides have rows, '
+        'current or the one cached at pass 1.  transient source failure: all five hash joins x cache x every pair of '
+        'tables with <=2 (thorough 3) rows over {None,i1,s1} x failing side in {left, right} x EVERY fail position '
+        '(header, each data row, exhaustion): the source raises once, the first time a reader reaches that item, '
+        'and is healthy afterwards; history pass, pass, pass over the same view: at most one pass may raise, every '
+        'pass that completes must be the relational result (so a lookup cached half-filled is visible).  '
+        'Non-trivial join case: both sides have rows, '
         'some pair matches, some row has no partner.  lookups: every rectangular table with <=4 rows (thorough 5) '
         'whose key column ranges over K6 (compound: two key columns, <=3 rows), plus <=3 rows with tuple-valued key '
         'cells (K4 + four tuples) and tuple-valued value cells (single and compound key) x lookup lookupone dictlookup '
@@ -62,6 +67,7 @@ RULE = ('joins: the C06 pair space (every pair of tables whose key vectors are A
         'argument).')
 ASSUMPTIONS = ['tables have at most 3 data rows per side (joins) / 5 rows (lookups); keys from a 3-6 value alphabet '
                '(None, two ints, a float equal to one int, two strings)',
+               'sources fail at most once per history (transient-failure axis), at a single position',
                'sources change only in the edit-between-passes histories (one edit, whole-contents replacement, '
                'tables <=2 rows); richer histories are C11',
                'a pre-filled dictionary= only holds keys that do not occur in the table (behaviour on colliding '
@@ -76,6 +82,7 @@ PASSES = 3
 def build_space(tier, seed):
     V = J.pair_space(tier, seed)
     V.pop('presorted')
+    V.pop('buffersize')          # the hash joins sort nothing
     for name, v in V.items():
         ops = list(J.HASH_OPS)
         if name == 'missing':
@@ -180,6 +187,7 @@ def setup(tier, seed):
     _S['namedata'] = J.name_data(tier, seed)
     _S['edit'] = edit_tables(tier, seed)
     _S['selectors'] = selector_space(tier, seed)
+    _S['fail'] = fail_tables(tier, seed)
 
 
 def bounds(tier, seed):
@@ -194,6 +202,9 @@ def bounds(tier, seed):
                          'operators': len(J.HASH_OPS)}
     b['edit-between-passes'] = {'contents_per_side': len(_S['edit']), 'histories': len(_S['edit']) ** 4,
                                 'operators': len(EDIT_OPS), 'cache': 2, 'passes': 3}
+    b['transient-source-failure'] = {'contents_per_side': len(_S['fail']), 'pairs': len(_S['fail']) ** 2,
+                                     'failing_side': 2, 'positions': 'header, every row, exhaustion',
+                                     'operators': len(J.HASH_OPS), 'passes': 3}
     b['lookup-selector-forms'] = {'table_x_key_selector': len(_S['selectors']),
                                   'calls': sum((2 * 3 * len(v) + 6) * len(SEL_MODES) for _, _, v in _S['selectors'])}
     b['lookup_dictionary_modes'] = [str(m) for m in DICT_MODES]
@@ -221,6 +232,9 @@ def items(tier, seed):
     size = max(1, 6000 // (npairs * len(EDIT_OPS) * 2))
     for lo in range(0, npairs, size):
         out.append(('edit', 'edit-between-passes', lo, min(npairs, lo + size)))
+    n = len(_S['fail']) ** 2
+    for lo in range(0, n, 40):
+        out.append(('fail', 'transient-source-failure', lo, min(n, lo + 40)))
     n = len(_S['selectors'])
     for lo in range(0, n, 250):
         out.append(('selectors', 'lookup-selector-forms', lo, min(n, lo + 250)))
@@ -580,10 +594,125 @@ def run_edit(lo, hi, acc):
 
 
 # ---------------------------------------------------------------------------------------------
+# transient-failure axis: one source raises ONCE at item position i (0 = header, 1..n = data row, n+1 = instead
+# of exhaustion) the first time any iterator reaches it and is healthy afterwards; history: pass (may raise),
+# pass, pass over the SAME view.  Every pass that completes must be the relational result.
+# ---------------------------------------------------------------------------------------------
+
+class Boom(Exception):
+    pass
+
+
+class OnceFailing(object):
+    """A table whose first reader to arrive at item `fail_at` gets an exception; afterwards it is healthy."""
+
+    def __init__(self, table, fail_at):
+        self.items = [tuple(r) for r in table]
+        self.fail_at = fail_at
+        self.armed = fail_at is not None
+        self.fired = 0
+
+    def __iter__(self):
+        return self._gen()
+
+    def _gen(self):
+        for pos, item in enumerate(self.items):
+            if self.armed and pos == self.fail_at:
+                self.armed = False
+                self.fired += 1
+                raise Boom('injected transient failure at item %d' % pos)
+            yield item
+        if self.armed and self.fail_at == len(self.items):
+            self.armed = False
+            self.fired += 1
+            raise Boom('injected transient failure at exhaustion')
+
+
+FAIL_KW = {'key': 'k'}
+
+
+def fail_tables(tier, seed):
+    return J.key_tuples(spaces.K3(seed), 2 if tier == 'quick' else 3)
+
+
+def check_fail(op, kw, lvec, rvec, side, pos, stats=None):
+    """None or (signature, expected, observed, message)."""
+    L = J.rect_table(('k', 'lid'), [0], lvec, 'L')
+    R = J.rect_table(('k', 'rid'), [0], rvec, 'R')
+    lsrc = OnceFailing(L, pos) if side == 'left' else L
+    rsrc = OnceFailing(R, pos) if side == 'right' else R
+    rkw = {k: v for k, v in kw.items() if k != 'cache'}
+    hdr, rows, _ = J.relational(op, L, R, stream=J.STREAMED[op], **rkw)
+    exp = [hdr] + rows
+    try:
+        view = getattr(etl, op)(lsrc, rsrc, **kw)
+    except Boom:
+        return None          # construction read the source (allowed); nothing to observe on this view
+    except Exception as e:
+        return ('raises %s at construction' % type(e).__name__, exp, _exc(e), '%s raised %s' % (op, type(e).__name__))
+    failed_pass = None
+    for p in range(3):
+        try:
+            out = _rows(view)
+        except Boom:
+            if failed_pass is not None:
+                return ('transient source failure surfaces twice', exp, 'Boom in pass %d and pass %d' % (failed_pass + 1, p + 1),
+                        '%s: the source failed once but two passes raised' % op)
+            failed_pass = p
+            continue
+        except Exception as e:
+            return ('raises %s after a transient source failure' % type(e).__name__, exp, _exc(e),
+                    '%s raised %s in pass %d (source failed once at item %d of the %s table)'
+                    % (op, type(e).__name__, p + 1, pos, side))
+        finally:
+            if stats is not None:
+                stats['transitions'] += 1
+        if not _agrees(op, out, L, R, kw):
+            when = ('the pass in which the source failed' if failed_pass is None and (lsrc if side == 'left' else rsrc).fired
+                    and p == 0 else 'a pass after the pass in which a source failed' if failed_pass is not None
+                    else 'a pass')
+            return ('%s completes with a result that is not the relational one (cache=%r)' % (when, kw.get('cache', 'n/a')),
+                    exp, out, '%s: pass %d differs from the relational result; the %s table failed once at item %d'
+                    % (op, p + 1, side, pos))
+    return None
+
+
+def run_fail(lo, hi, acc):
+    vecs = _S['fail']
+    pairs = list(itertools.product(vecs, repeat=2))
+    stats = {'transitions': 0}
+    for lvec, rvec in pairs[lo:hi]:
+        for op in J.HASH_OPS:
+            for cache in ((True, False) if op in J.TAKES_CACHE else (None,)):
+                kw = dict(FAIL_KW)
+                if cache is not None:
+                    kw['cache'] = cache
+                for side, vec in (('left', lvec), ('right', rvec)):
+                    for pos in range(len(vec) + 3):          # header, each row, exhaustion
+                        acc.states += 1
+                        acc.evals += 3
+                        acc.counters['fail:' + op] += 1
+                        build = 'left' if op == 'hashrightjoin' else 'right'
+                        if side == build and 1 <= pos <= len(vec) + 1 and len(vec) >= 1:
+                            acc.nontrivial += 1
+                            acc.counters['nontrivial-fail:' + op] += 1
+                        r = check_fail(op, kw, lvec, rvec, side, pos, stats)
+                        acc.outcome(('fail', op, cache, side, pos, r is None))
+                        if r is not None:
+                            acc.violation('%s | %s' % (op, r[0]),
+                                          {'kind': 'fail', 'op': op, 'kwargs': kw, 'lvec': lvec, 'rvec': rvec,
+                                           'side': side, 'pos': pos}, r[1], r[2], r[3])
+    acc.transitions += stats['transitions']
+
+
+# ---------------------------------------------------------------------------------------------
 # replay / run
 # ---------------------------------------------------------------------------------------------
 
 def replay(case):
+    if case['kind'] == 'fail':
+        r = check_fail(case['op'], case['kwargs'], case['lvec'], case['rvec'], case['side'], case['pos'])
+        return None if r is None else (r[1], r[2], r[0] + ': ' + r[3])
     if case['kind'] == 'edit':
         r = check_edit(case['op'], case['kwargs'], case['l0'], case['r0'], case['l1'], case['r1'])
         return None if r is None else (r[1], r[2], r[0] + ': ' + r[3])
@@ -707,6 +836,9 @@ def run_item(item, acc):
         return
     if kind == 'edit':
         run_edit(lo, hi, acc)
+        return
+    if kind == 'fail':
+        run_fail(lo, hi, acc)
         return
     if kind == 'selectors':
         run_selectors(lo, hi, acc)
